@@ -85,6 +85,57 @@ def make_cases(rng, nbase):
     return cases
 
 
+DEBUG_DECLS = COUNT_DECLS + """
+#[derive(Clone, PartialEq, PartialOrd)] pub struct Cnt(pub i32);
+impl std::fmt::Debug for Cnt { fn fmt(&self, f: &mut std::fmt::Formatter<'_>) -> std::fmt::Result { DEBUGS.with(|c| c.set(c.get() + 1)); write!(f, "Cnt({})", self.0) } }
+#[derive(Debug)] pub struct W { pub f: Cnt, pub xs: Vec<Cnt>, pub t: (Cnt, Cnt), pub o: Option<Cnt> }
+impl W { pub fn get(&self) -> &Cnt { &self.f } pub fn val(&self) -> Cnt { self.f.clone() } }
+#[derive(Debug)] pub struct W2 { pub w: W }
+pub fn mk() -> W2 { W2 { w: W { f: Cnt(5), xs: vec![Cnt(5), Cnt(7)], t: (Cnt(5), Cnt(7)), o: Some(Cnt(5)) } } }
+"""
+DEBUG_PASSING = [
+    "W2 { w: W { f: == Cnt(5), .. } }", "W2 { w: W { f: > Cnt(1), .. } }", "W2 { w: W { f: |v| v.0 == 5, .. } }", "W2 { w: W { f: _, .. } }",
+    "W2 { w.get(): == Cnt(5) }", "W2 { w.get(): > Cnt(1) }", "W2 { w.get(): |v| v.0 == 5 }", "W2 { w.val(): |v| v.0 == 5 }", "W2 { w.val(): == Cnt(5) }",
+    "W2 { w.xs[0]: == Cnt(5) }", "W2 { w.xs[1]: == Cnt(7) }", "W2 { w.xs.first(): Some(|v| v.0 == 5) }", "W2 { w.t.0: == Cnt(5) }", "W2 { w.t: (== Cnt(5), |v| v.0 == 7) }",
+    "W2 { w: W { xs: [== Cnt(5), ..], .. } }", "W2 { w: W { xs: [|v| v.0 == 5, _], .. } }", "W2 { w: W { o: Some(== Cnt(5)), .. } }", "W2 { w: W { o: Some(|v| v.0 == 5), .. } }",
+    "W2 { w: _ { f: == Cnt(5), .. } }", "W2 { w: _ { f: |v| v.0 == 5, .. } }", "W2 { w: W { xs: #(== Cnt(5), ..), .. } }", "W2 { w: W { xs: #(== Cnt(7), == Cnt(5)), .. } }",
+    "W2 { w: W { t: (|v| v.0 == 5, _), .. } }", "W2 { w.xs.len(): 2 }", "W2 { w: W { f: Cnt(1)..=Cnt(9), .. } }" if False else "W2 { w.f.0: 1..=9 }",
+]
+
+
+def debug_cases(rng, _n):
+    cases = []
+    for k, pat in enumerate(DEBUG_PASSING):
+        c = t3.Case()
+        c.id = k
+        c.forms = {"debug-on-pass": 1}
+        c.meanings = "(meanings)"
+        t3.finish_case(c, DEBUG_DECLS, "W2", "mk()", "(int 0)", pat)
+        c.setup = "DEBUGS.with(|c| c.set(0));"
+        c.post = 'println!("X %d debugs={}", DEBUGS.with(|c| c.get()));' % c.id
+        cases.append(c)
+    return cases
+
+
+def debug_part(ck):
+    """Debug never runs on the passing path: a value type with a counting Debug impl, passing assertions of every form,
+    in field, chain (method by reference and by value, index, tuple index), element, variant, wildcard-struct and set positions."""
+    cases = t3.run_corpus(ck, "c08-debug", 0, per_bin=12, positions=debug_cases)
+    dist = {}
+    for c in cases:
+        gk = c.got[0]
+        d = int(getattr(c, "extra", {}).get("debugs", "-1"))
+        dist["%s debugs=%d" % (gk, d)] = dist.get("%s debugs=%d" % (gk, d), 0) + 1
+        if gk != "pass":
+            ck.report("debug-case-not-passing", "a passing assertion of the Debug-counter family does not pass / compile: " + gk, dict(t3.describe(c)), no_input=True)
+            continue
+        if d != 0:
+            setp = "#(" in c.text
+            ck.report("debug-on-pass:" + ("set" if setp else "other"), "Debug formatting runs %d time(s) although the assertion passes" % d, dict(t3.describe(c), debug_calls=d))
+    ck.corr_record("T3 Debug counters (a value type with a counting Debug impl; passing assertions in every kind of position): Debug must not run",
+                   len(cases), len(cases), 0, dist, samples=[dict(invocation="assert_struct!(%s)" % cases[0].text)], exhaustive=True, rule="fixed list of %d passing assertions" % len(DEBUG_PASSING))
+
+
 def run(ck):
     ck.prove(["AsModel.Theorems.C08"])
     ck.build_harness("inproc")
@@ -126,4 +177,5 @@ def run(ck):
     if t2_mm and not found:
         ck.report("corr:T2-body", "the model of the code generator no longer matches the real expansion (%d inputs differ)" % len(t2_mm),
                   dict(broken="correspondence T2 (expansion tokens)", theorems=["C08_root_bound_once", "C08_leaf_evaluations"], first=t2_mm[:3]), no_input=True)
+    debug_part(ck)
     ck.assumptions += ["evaluation counts are observed through counting wrappers in generated programs; `.await` and custom Index impls are not instrumented"]
